@@ -4,7 +4,7 @@
 From Coq Require Import NArith ZArith List String Bool Permutation.
 From V Require Import Base.UString Base.Json Model.SchemaTypes Model.PyBase Model.Schema Model.Serialize.
 From V Require Import Spec.JsonValue Proofs.C01Basics Proofs.C01Serialize.
-From V Require Import Proofs.C01Kinds Proofs.C01KindsAll Proofs.C01Object Proofs.C01Roundtrip Proofs.C01LibInstance Gen.Tables.
+From V Require Import Proofs.C01Kinds Proofs.C01KindsAll Proofs.C01Object Proofs.C01Roundtrip Proofs.C01Parse Proofs.C01LibInstance Gen.Tables.
 Import ListNotations.
 
 (* All serialization options denote the same JSON value: whatever the option set, the value written
@@ -103,6 +103,26 @@ Theorem reserialize_identical_partial :
 Proof. exact C01Roundtrip.reserialize_identical_construct. Qed.
 Print Assumptions reserialize_identical_partial.
 
+(* roundtrip_equal at the level of stix2.parse(text) with no version named (detect_own_output included):
+   the object's own encoding is detected as the same spec version, looked up as the same class and
+   constructed as the same object.  Table conditions: closed_ok on `ids`; registry_ok (every registered
+   type name leads to a class of that version and type); parse_class_ok on the entry points `pids`
+   (type / spec_version / id slots of the expected shape).  Input: plain JSON whose id is given when
+   its type is a 2.1 observable type. *)
+Theorem roundtrip_equal_parse_partial :
+  forall vr ev w pattern_ok selectors_ok, vr_year_pad vr = true ->
+  forall ids, closed_ok vr w ids = true -> registry_ok w = true ->
+  forall pids, forallb (fun k => mem_ustr k ids) pids = true ->
+    forallb (fun k => match find_class (wclasses w) k with Some c => parse_class_ok w c | None => false end) pids = true ->
+  forall fuel allow interop d ci S dfl hc,
+    plain_dict d = true ->
+    mem_ustr ci pids = true ->
+    (amem id_key d = true \/ forall t, alookup type_key d = Some (JStr t) -> amem t (robservables (wreg21 w)) = false) ->
+    run vr ev w pattern_ok selectors_ok fuel (RParse allow interop None d) = Ok (PObject ci S dfl hc) ->
+    run vr ev w pattern_ok selectors_ok fuel (RParse allow interop None (omem (PObject ci S dfl hc))) = Ok (PObject ci S dfl hc).
+Proof. exact C01Parse.parse_roundtrip. Qed.
+Print Assumptions roundtrip_equal_parse_partial.
+
 (* the generated tables of /repo: which classes the two theorems above cover (recomputed by the kernel
    on every run; 110 of 123 at the pinned tables -- not: Bundle, ObservedData (member parsing),
    Relationship, Sighting, StatementMarking, MarkingDefinition, 2.1 Indicator (class __init__ rewrites)) *)
@@ -112,3 +132,11 @@ Print Assumptions lib_classes_covered.
 
 Example lib_coverage_count : fst lib_coverage = List.length lib_proved_ids /\ snd lib_coverage = List.length (wclasses lib).
 Proof. split; vm_compute; reflexivity. Qed.
+
+(* ... and which of them are parse entry points covered by roundtrip_equal_parse_partial (81 at the pinned tables) *)
+Theorem lib_parse_classes_covered :
+  registry_ok lib = true /\
+  forallb (fun k => mem_ustr k lib_proved_ids) lib_parse_ids = true /\
+  forallb (fun k => match find_class (wclasses lib) k with Some c => parse_class_ok lib c | None => false end) lib_parse_ids = true.
+Proof. exact (conj C01LibInstance.lib_registry_ok (conj C01LibInstance.lib_parse_sub C01LibInstance.lib_parse_ok)). Qed.
+Print Assumptions lib_parse_classes_covered.
